@@ -138,14 +138,14 @@ Qed.
 (* ---- show_func: which functions are shown ----------------------------------------- *)
 Definition shown (strip : bool) (e : entry) : bool := negb (strip && (total_hits (snd e) =? 0)).
 
-Lemma show_func_key F E strip k tm b : show_func F E strip k tm = Some b -> b_key b = k.
+Lemma show_func_key F E strip cl k tm b : show_func F E strip cl k tm = Some b -> b_key b = k.
 Proof.
   destruct k as [[fn start] name]. unfold show_func.
   destruct (strip && (total_hits tm =? 0)); [discriminate|]. intros H. inversion H. reflexivity.
 Qed.
 
-Lemma show_func_some F E strip k tm :
-  (exists b, show_func F E strip k tm = Some b) <-> shown strip (k, tm) = true.
+Lemma show_func_some F E strip cl k tm :
+  (exists b, show_func F E strip cl k tm = Some b) <-> shown strip (k, tm) = true.
 Proof.
   destruct k as [[fn start] name]. unfold show_func, shown. cbn [snd].
   destruct (strip && (total_hits tm =? 0)); cbn [negb]; split.
@@ -155,11 +155,33 @@ Proof.
   - intros _. eexists. reflexivity.
 Qed.
 
-Lemma show_func_none F E strip k tm :
-  show_func F E strip k tm = None <-> shown strip (k, tm) = false.
+Lemma show_func_none F E strip cl k tm :
+  show_func F E strip cl k tm = None <-> shown strip (k, tm) = false.
 Proof.
   destruct k as [[fn start] name]. unfold show_func, shown. cbn [snd].
   destruct (strip && (total_hits tm =? 0)); cbn [negb]; split; congruence.
+Qed.
+
+Lemma show_blocks_keys F E strip : forall l cl,
+  map b_key (show_blocks F E strip cl l) = map fst (filter (shown strip) l).
+Proof.
+  induction l as [|[k tm] t IH]; intros cl; cbn [show_blocks filter map fst snd]; [reflexivity|].
+  destruct (show_func F E strip cl k tm) as [b|] eqn:Ef.
+  - rewrite (proj1 (show_func_some F E strip cl k tm) (ex_intro _ b Ef)).
+    cbn [map fst]. rewrite (show_func_key _ _ _ _ _ _ _ Ef), IH. reflexivity.
+  - rewrite (proj1 (show_func_none F E strip cl k tm) Ef). apply IH.
+Qed.
+
+Lemma show_blocks_in F E strip b : forall l cl,
+  In b (show_blocks F E strip cl l) ->
+  exists e cl', In e l /\ show_func F E strip cl' (fst e) (snd e) = Some b.
+Proof.
+  induction l as [|e t IH]; intros cl; cbn [show_blocks]; [intros []|].
+  destruct (show_func F E strip cl (fst e) (snd e)) as [b0|] eqn:Ef.
+  - intros [<-|Hin].
+    + exists e, cl. split; [left; reflexivity|exact Ef].
+    + destruct (IH _ Hin) as [e' [cl' [Hin' Hf]]]. exists e', cl'. split; [right; exact Hin'|exact Hf].
+  - intros Hin. destruct (IH _ Hin) as [e' [cl' [Hin' Hf]]]. exists e', cl'. split; [right; exact Hin'|exact Hf].
 Qed.
 
 Lemma blocks_keys F E o st :
@@ -167,11 +189,7 @@ Lemma blocks_keys F E o st :
   map b_key (rp_blocks (show_text F E o st))
   = map fst (filter (shown (o_stripzeros o)) (stats_order (o_sort o) st)).
 Proof.
-  intros Hd. unfold show_text. cbn [rp_blocks]. rewrite Hd.
-  apply filter_map_map_filter.
-  - intros [k tm] b H. cbn [fst snd] in H. split; [exact (show_func_key _ _ _ _ _ _ H)|].
-    apply (proj1 (show_func_some F E _ k tm)). exists b. exact H.
-  - intros [k tm] H. cbn [fst snd] in H. apply (proj1 (show_func_none F E _ k tm)). exact H.
+  intros Hd. unfold show_text. cbn [rp_blocks]. rewrite Hd. apply show_blocks_keys.
 Qed.
 
 Lemma NoDup_keys_in_unique (st : stats) k tm tm' :
@@ -195,7 +213,8 @@ Theorem every_function_once F E o (st : stats) :
   /\ (forall k tm, In (k, tm) st ->
         (In k (map b_key blocks) <-> (o_stripzeros o = false \/ total_hits tm <> 0)))
   /\ (forall b, In b blocks ->
-        exists tm, In (b_key b, tm) st /\ show_func F E (o_stripzeros o) (b_key b) tm = Some b).
+        exists tm cleared, In (b_key b, tm) st
+                           /\ show_func F E (o_stripzeros o) cleared (b_key b) tm = Some b).
 Proof.
   intros Hnd Hd blocks.
   assert (Hperm := stats_order_perm (o_sort o) st).
@@ -216,9 +235,9 @@ Proof.
       * unfold shown. cbn [snd]. destruct Hs as [->|Hs]; [reflexivity|].
         destruct (o_stripzeros o); [cbn; lia|reflexivity].
   - intros b Hb. unfold blocks, show_text in Hb. cbn [rp_blocks] in Hb. rewrite Hd in Hb.
-    apply filter_map_in in Hb as [[k tm] [Hin Hf]]. cbn [fst snd] in Hf.
-    pose proof (show_func_key _ _ _ _ _ _ Hf) as Hk. subst k.
-    exists tm. split; [eapply Permutation_in; [exact Hperm|exact Hin]|exact Hf].
+    apply show_blocks_in in Hb as [[k tm] [cl [Hin Hf]]]. cbn [fst snd] in Hf.
+    pose proof (show_func_key _ _ _ _ _ _ _ Hf) as Hk. subst k.
+    exists tm, cl. split; [eapply Permutation_in; [exact Hperm|exact Hin]|exact Hf].
 Qed.
 
 Lemma details_off F E o st : o_details o = false -> rp_blocks (show_text F E o st) = [].
@@ -455,9 +474,9 @@ Proof.
   - apply IH.
 Qed.
 
-Lemma show_func_rows F E strip fn start name tm b :
-  show_func F E strip (fn, start, name) tm = Some b ->
-  let sub := block_lines (E fn start) start tm in
+Lemma show_func_rows F E strip cl fn start name tm b :
+  show_func F E strip cl (fn, start, name) tm = Some b ->
+  let sub := block_lines (E fn start) cl start tm in
   b_rows b = map (fun p => mk_row (build_display F (total_time tm) tm) (fst p) (snd p))
                  (combine (zrange start (length sub)) sub).
 Proof.
@@ -467,9 +486,9 @@ Qed.
 
 (* row i of a block carries line start+i, the text of the i-th line of the source block,
    and the display entry of that line number (empty cells when nothing was recorded) *)
-Theorem row_i_is_line_start_plus_i F E strip fn start name tm b :
-  show_func F E strip (fn, start, name) tm = Some b ->
-  let sub := block_lines (E fn start) start tm in
+Theorem row_i_is_line_start_plus_i F E strip cl fn start name tm b :
+  show_func F E strip cl (fn, start, name) tm = Some b ->
+  let sub := block_lines (E fn start) cl start tm in
   length (b_rows b) = length sub
   /\ forall i r, nth_error (b_rows b) i = Some r ->
        r_lineno r = start + Z.of_nat i
@@ -477,7 +496,7 @@ Theorem row_i_is_line_start_plus_i F E strip fn start name tm b :
                         /\ r_text r = rstrip_char cr (rstrip_char nl line))
        /\ r_cells r = display_entry F (total_time tm) tm (start + Z.of_nat i).
 Proof.
-  intros H sub. rewrite (show_func_rows _ _ _ _ _ _ _ _ H). fold sub. split.
+  intros H sub. rewrite (show_func_rows _ _ _ _ _ _ _ _ _ H). fold sub. split.
   - rewrite map_length, combine_length, zrange_length. lia.
   - intros i r Hr. rewrite nth_error_map in Hr.
     destruct (nth_error (combine (zrange start (length sub)) sub) i) as [p|] eqn:Ep; [|discriminate].
@@ -492,10 +511,10 @@ Qed.
 (* unique line numbers (what C12 guarantees): every recorded line inside the block range is
    on exactly one row, its own, with its own numbers; a recorded line outside the range is on
    no row at all (silently dropped) *)
-Theorem every_line_once F E strip fn start name tm b :
-  show_func F E strip (fn, start, name) tm = Some b ->
+Theorem every_line_once F E strip cl fn start name tm b :
+  show_func F E strip cl (fn, start, name) tm = Some b ->
   NoDup (map t_line tm) ->
-  let n := Z.of_nat (length (block_lines (E fn start) start tm)) in
+  let n := Z.of_nat (length (block_lines (E fn start) cl start tm)) in
   forall t, In t tm ->
     (start <= t_line t < start + n ->
        exists i r, nth_error (b_rows b) i = Some r
@@ -506,7 +525,7 @@ Theorem every_line_once F E strip fn start name tm b :
     /\ (~ (start <= t_line t < start + n) -> forall r, In r (b_rows b) -> r_lineno r <> t_line t).
 Proof.
   intros H Hnd n t Hin.
-  destruct (row_i_is_line_start_plus_i _ _ _ _ _ _ _ _ H) as [Hlen Hrow]. cbn zeta in Hlen, Hrow.
+  destruct (row_i_is_line_start_plus_i _ _ _ _ _ _ _ _ _ H) as [Hlen Hrow]. cbn zeta in Hlen, Hrow.
   split.
   - intros Hrange. set (i := Z.to_nat (t_line t - start)).
     destruct (nth_error (b_rows b) i) as [r|] eqn:Er.
@@ -542,10 +561,10 @@ Proof.
     + apply IH. intros x [->|Hx]; apply H; [left; reflexivity|right; right; exact Hx].
 Qed.
 
-Theorem missing_file_covers_all_lines start tm :
+Theorem missing_file_covers_all_lines cl start tm :
   (forall t, In t tm -> start <= t_line t) ->
   forall t, In t tm ->
-    start <= t_line t < start + Z.of_nat (length (block_lines Missing start tm)).
+    start <= t_line t < start + Z.of_nat (length (block_lines Missing cl start tm)).
 Proof.
   intros Hge t Hin. split; [apply Hge; exact Hin|].
   unfold block_lines. rewrite repeat_length.
@@ -561,3 +580,57 @@ Qed.
 (* the header of the block: column widths fit every displayed cell *)
 Lemma zmax_list_ge_default d l : d <= zmax_list d l.
 Proof. induction l as [|a l IH]; cbn [zmax_list fold_right]; [lia|]. fold (zmax_list d l). lia. Qed.
+
+(* ---- repeated line numbers (outside C12's guarantee): the LAST entry wins ------------------ *)
+Lemma find_none_all {A} (p : A -> bool) l : (forall x, In x l -> p x = false) -> find p l = None.
+Proof.
+  induction l as [|a t IH]; intros H; cbn [find]; [reflexivity|].
+  rewrite (H a (or_introl eq_refl)). apply IH. intros x Hx. apply H. right. exact Hx.
+Qed.
+
+Theorem duplicate_lineno_last_wins pre t post :
+  (forall t', In t' post -> t_line t' <> t_line t) ->
+  last_for (pre ++ t :: post) (t_line t) = Some t.
+Proof.
+  intros H. unfold last_for. rewrite rev_app_distr. cbn [rev]. rewrite <- app_assoc. rewrite find_app.
+  rewrite find_none_all.
+  - cbn [app find]. rewrite Z.eqb_refl. reflexivity.
+  - intros x Hx. apply in_rev in Hx. specialize (H x Hx). lia.
+Qed.
+
+(* ---- skip-zero hides exactly the functions with no hits ------------------------------------ *)
+Theorem skip_zero_exact F E o (st : stats) :
+  NoDup (map fst st) -> o_details o = true -> o_stripzeros o = true ->
+  forall k tm, In (k, tm) st -> (forall t, In t tm -> 0 <= t_hits t) ->
+    (~ In k (map b_key (rp_blocks (show_text F E o st))) <-> forall t, In t tm -> t_hits t = 0).
+Proof.
+  intros Hnd Hd Hs k tm Hin Hnn.
+  destruct (every_function_once F E o st Hnd Hd) as [_ [Hiff _]]. cbn zeta in Hiff.
+  rewrite (Hiff k tm Hin), Hs. rewrite <- (no_hits_iff tm Hnn). split.
+  - intros H. destruct (Z.eq_dec (total_hits tm) 0) as [E0|Ne]; [exact E0|]. exfalso. apply H. right. exact Ne.
+  - intros H [Hc|Hc]; [discriminate|contradiction].
+Qed.
+
+(* ---- summary vs details under stripzeros ------------------------------------------------------ *)
+(* If "total time is non-zero" coincided with "total hits is non-zero" the two filters would
+   agree; show_text tests the TIME for the summary and the HITS for the details. *)
+Theorem skipzero_summary_agree_if F E o (st : stats) :
+  o_details o = true -> o_summarize o = true ->
+  (forall k tm, In (k, tm) st -> f_truthy F (total_time tm) = negb (total_hits tm =? 0)) ->
+  map fst (rp_summary (show_text F E o st)) = map b_key (rp_blocks (show_text F E o st)).
+Proof.
+  intros Hd Hs Hag. rewrite blocks_keys by exact Hd. rewrite summary_keys by exact Hs.
+  rewrite map_map. cbn [fst]. f_equal. apply filter_ext_in.
+  intros [k tm] Hin. apply (Permutation_in _ (stats_order_perm (o_sort o) st)) in Hin.
+  unfold summarized, shown. cbn [snd]. rewrite (Hag k tm Hin).
+  destruct (o_stripzeros o); cbn [negb orb andb]; [|reflexivity].
+  reflexivity.
+Qed.
+
+(* ---- IPython cells: the source block is gone once linecache was cleared ---------------------- *)
+Theorem cell_after_clear_has_no_rows F E strip fn start name tm b sub :
+  E fn start = Cell sub ->
+  show_func F E strip true (fn, start, name) tm = Some b -> b_rows b = [].
+Proof.
+  intros HE H. rewrite (show_func_rows _ _ _ _ _ _ _ _ _ H). rewrite HE. reflexivity.
+Qed.
